@@ -234,6 +234,8 @@ fn lim(s: &str) -> Option<Lim> {
     opt_nat(s).map(Lim::from)
 }
 
+thread_local! { static RECV_BUF: std::cell::RefCell<Vec<u8>> = std::cell::RefCell::new(Vec::with_capacity(1 << 20)); }
+
 #[derive(Clone, Copy)]
 struct ReqCfg {
     rl: Lim,
@@ -262,9 +264,19 @@ fn apply_req_cfg(r: &mut Request, cfg: &ReqCfg) {
 /// `after_error`: keep calling `parse` after an error (the caller re-presents the whole buffer), which the
 /// documented protocol does not do — used only to see that nothing crashes or allocates out of proportion
 fn run_req_v(cfgs: &[ReqCfg], ds: &[Vec<u8>], after_error: bool) -> (String, Option<Request>) {
+    // one receive buffer per thread, re-used from message to message as a connection handler does (so that anything the
+    // library might remember about "the buffer it saw last" meets the same address again)
+    RECV_BUF.with(|b| {
+        let mut g = b.borrow_mut();
+        g.clear();
+        run_req_v_in(&mut g, cfgs, ds, after_error)
+    })
+}
+
+fn run_req_v_in(buf: &mut Vec<u8>, cfgs: &[ReqCfg], ds: &[Vec<u8>], after_error: bool) -> (String, Option<Request>) {
     let c0 = cfgs[0];
     let mut r = if c0.rl.dflt || c0.hl.dflt || c0.max.dflt { Request::default() } else { Request::new() };
-    let mut buf: Vec<u8> = Vec::new();
+
     let mut acc: Vec<String> = vec![];
     let mut meters: Vec<String> = vec![];
     for (i, d) in ds.iter().enumerate() {
@@ -311,6 +323,14 @@ fn run_resp(hl: Lim, ds: &[Vec<u8>]) -> (String, Option<Response>) {
 /// `pre`: bytes the caller has put into the public `body` field before the first call;
 /// `after_error`: as in `run_req_v`
 fn run_resp_x(hl: Lim, pre: Option<&[u8]>, ds: &[Vec<u8>], after_error: bool) -> (String, Option<Response>) {
+    RECV_BUF.with(|b| {
+        let mut g = b.borrow_mut();
+        g.clear();
+        run_resp_x_in(&mut g, hl, pre, ds, after_error)
+    })
+}
+
+fn run_resp_x_in(buf: &mut Vec<u8>, hl: Lim, pre: Option<&[u8]>, ds: &[Vec<u8>], after_error: bool) -> (String, Option<Response>) {
     let mut r = if hl.dflt { Response::default() } else { Response::new() };
     if !hl.keep {
         r.headers.set_line_limit(hl.v);
@@ -318,7 +338,7 @@ fn run_resp_x(hl: Lim, pre: Option<&[u8]>, ds: &[Vec<u8>], after_error: bool) ->
     if let Some(p) = pre {
         r.body = p.to_vec();
     }
-    let mut buf: Vec<u8> = Vec::new();
+
     let mut acc: Vec<String> = vec![];
     let mut meters: Vec<String> = vec![];
     for d in ds {
